@@ -14,21 +14,47 @@ RULE = ('one run = one proof module: a shipped one (Propositional, SmallTheory, 
         'the real checker and R1 must accept each triple. Non-trivial = at least one accepted library or rule step is in the dependency cone of a claim; '
         'distinct = distinct event-log digests.')
 PROBES = ['lib_step', 'mp_step', 'inst_step', 'gen_step', 'taut_step', 'load_emitted', 'memoizer_saved', 'claims_ge2', 'import_depth_ge2',
-          'diamond_import', 'notation_in_claim', 'optimized_differs', 'shipped_module', 'esubst_emitted', 'constrained_metavar_emitted']
+          'diamond_import', 'notation_in_claim', 'optimized_differs', 'shipped_module', 'esubst_emitted', 'constrained_metavar_emitted', 'memory_pressure_module']
 ASSUMPTIONS = ['well-formed workload: argument patterns are well-formed by the documented judgement and explicit instantiations are legal by R3 (DESIGN.md 3.1)']
 
 
 def generate(rng, tier):
+    if rng.random() < 0.02:
+        # memory pressure: many distinct memoisable patterns next to a few axioms (the 256-slot budget)
+        return {'pressure': {'axioms': rng.randint(1, 8), 'lemmas': rng.choice([120, 200, 245, 250, 255, 260]), 'load_axioms': rng.random() < 0.7},
+                'order': [False, True], '_tier': tier}
     sc = _p.gen_scenario(rng, tier)
     sc['order'] = rng.choice([[False, True], [True, False]])
     sc['_tier'] = tier
     return sc
 
 
+def pressure_module(p):
+    from proof_generation.proof import ProofExp
+    from proof_generation.pattern import Implies, Symbol, App
+    from proof_generation.proofs.propositional import Propositional
+    axioms = [Implies(Symbol('ax%d' % i), App(Symbol('f'), Symbol('ax%d' % i))) for i in range(p['axioms'])]
+    mod = ProofExp(axioms=axioms)
+    lib = mod.import_module(Propositional())
+    for i in range(p['lemmas']):
+        t = App(Symbol('g'), App(Symbol('h%d' % (i % 7)), Symbol('c%d' % (i // 7))))
+        th = lib.imp_refl(t)
+        mod.add_claim(th.conc); mod.add_proof_expression(th)
+    if p['load_axioms']:
+        for a in axioms:
+            th = lib.imp_provable(Symbol('c0'), mod.load_axiom(a))
+            mod.add_claim(th.conc); mod.add_proof_expression(th)
+    return mod
+
+
 def execute(sc, ctx, want=('C02',)):
     out = Outcome()
     try:
-        mod, recipe = _p.materialise(sc)
+        if 'pressure' in sc:
+            mod, recipe = pressure_module(sc['pressure']), None
+            out.probe('memory_pressure_module')
+        else:
+            mod, recipe = _p.materialise(sc)
     except C.Refused as e:
         out.refused = True
         out.event('refused-at-build', str(e)[:80])
@@ -60,8 +86,11 @@ def execute(sc, ctx, want=('C02',)):
     if 'C03' in want and (len(axioms) >= 2 or len(claims) >= 2): out.nontrivial = True
     if any(_p.B.from_py(c) != _p.B.py_expand(c) for c in mod._claims): out.probe('notation_in_claim')
     triples = {}
+    refusals = {}
     fs = SimFS()
     cap = 60000 if sc.get('_tier') == 'thorough' else 9000
+    if 'pressure' in sc:
+        cap = 10 ** 7
     order = list(sc['order'])
     if order[0]:
         # size gate: the optimiser's pre-pass is quadratic in the proof size, so measure the plain form first
@@ -84,6 +113,7 @@ def execute(sc, ctx, want=('C02',)):
         except Exception as e:
             out.refused = True
             out.event('refused-at-serialise', opt, type(e).__name__, str(e)[:80])
+            refusals[opt] = type(e).__name__
             continue
         triple = fs.triple(base)
         triples[opt] = triple
@@ -106,6 +136,10 @@ def execute(sc, ctx, want=('C02',)):
             if 'MetaVar' in names: out.probe('constrained_metavar_emitted')
             if 'C03' in want:
                 _p.journal_check(m, axioms, claims, _p.B.SymMap(), out, 'optimize=%s' % opt)
+    if 'C02' in want and True in refusals and False in triples and not out.violations:
+        # optimisation must not turn a module that serialises (and is accepted) without it into a refusal
+        out.violate('serialising with optimisation succeeds whenever serialising without it does', 'C02|optimised-serialisation-refused|' + refusals[True],
+                    'plain serialisation accepted by the checker (sizes %s); optimize=True raised %s' % ([len(x) for x in triples[False]], refusals[True]))
     if len(triples) == 2 and triples[False] != triples[True]:
         out.probe('optimized_differs')
         if 'C03' in want and (triples[False][0] != triples[True][0] and False):
